@@ -10,9 +10,9 @@ namespace Humphrey.WsApp
 open Humphrey.WsAppSpec
 
 /-- What one poll contributes. -/
-def pollEffects (w : Bool) (p : Poll) : List Effect :=
-  (msgs p.results).map (.dispatchMessage p.addr) ++
-    (if closes p then [.dispatchDisconnect p.addr] else if w then [.ping p.addr] else [])
+def pollEffects (h : Handlers) (w : Bool) (p : Poll) : List Effect :=
+  (msgs p.results).flatMap (onMessage h p.addr) ++
+    (if closes p then onGone h p.addr else if w then [.ping p.addr] else [])
 
 /-- The table after the polls. -/
 def kept (st : List Addr) (ps : List Poll) : List Addr :=
@@ -22,30 +22,30 @@ def kept (st : List Addr) (ps : List Poll) : List Addr :=
 def nextStreams (st : List Addr) (i : IterInput) : List Addr := admitAll (kept st i.polls) i.incoming
 
 /-- The effects of an iteration that does not see the shutdown signal. -/
-def iterEffects (st : List Addr) (i : IterInput) : List Effect :=
-  i.polls.flatMap (pollEffects i.willPing) ++ i.incoming.map .dispatchConnect ++
+def iterEffects (h : Handlers) (st : List Addr) (i : IterInput) : List Effect :=
+  i.polls.flatMap (pollEffects h i.willPing) ++ i.incoming.flatMap (onConnect h) ++
     flush (nextStreams st i) i.outgoing
 
-theorem drain_eq (a : Addr) (rs : List Recv) :
-    drain a rs = ((msgs rs).map (.dispatchMessage a) ++ (if endsErr rs then [.dispatchDisconnect a] else []),
-                  endsErr rs) := by
+theorem drain_eq (h : Handlers) (a : Addr) (rs : List Recv) :
+    drain h a rs = ((msgs rs).flatMap (onMessage h a) ++ (if endsErr rs then onGone h a else []),
+                    endsErr rs) := by
   induction rs with
   | nil => simp [drain, msgs, endsErr]
   | cons r rs ih =>
     cases r with
-    | msg m => simp only [drain, msgs, endsErr, ih, List.map_cons, List.cons_append]; rfl
+    | msg m => simp only [drain, msgs, endsErr, ih, List.flatMap_cons, List.append_assoc]; rfl
     | err => simp [drain, msgs, endsErr]
     | none => simp [drain, msgs, endsErr]
 
-theorem pollOne_eq (w : Bool) (st : List Addr) (p : Poll) :
-    pollOne w st p = (if closes p then remove st p.addr else st, pollEffects w p) := by
+theorem pollOne_eq (h : Handlers) (w : Bool) (st : List Addr) (p : Poll) :
+    pollOne h w st p = (if closes p then remove st p.addr else st, pollEffects h w p) := by
   unfold pollOne pollEffects closes
   rw [drain_eq]
   cases h1 : endsErr p.results <;> cases h2 : p.timedOut <;> cases w <;> simp
 
-theorem pollAll_eq (w : Bool) : ∀ (ps : List Poll) (st : List Addr),
+theorem pollAll_eq (h : Handlers) (w : Bool) : ∀ (ps : List Poll) (st : List Addr),
     (∀ p ∈ ps, p.addr ∈ st) → (ps.map (·.addr)).Nodup →
-    pollAll w st ps = (some (kept st ps), ps.flatMap (pollEffects w)) := by
+    pollAll h w st ps = (some (kept st ps), ps.flatMap (pollEffects h w)) := by
   intro ps
   induction ps with
   | nil =>
@@ -154,17 +154,18 @@ theorem inputsOk_iff {s : AppState} {i : IterInput} (hs : i.shutdown = false) :
       (∀ a ∈ s.streams, a ∈ i.polls.map (·.addr)) ∧ (∀ p ∈ i.polls, wellFormedResults p.results = true) := by
   simp [InputsOk, hs, and_assoc]
 
-theorem stepLoop_eq {s : AppState} {i : IterInput} (hs : i.shutdown = false) (hok : InputsOk s i = true) :
-    stepLoop s i = ({ streams := nextStreams s.streams i, phase := .running }, iterEffects s.streams i) := by
+theorem stepLoop_eq {h : Handlers} {s : AppState} {i : IterInput} (hs : i.shutdown = false)
+    (hok : InputsOk s i = true) :
+    stepLoop h s i = ({ streams := nextStreams s.streams i, phase := .running }, iterEffects h s.streams i) := by
   obtain ⟨hnd, hmem, _, _⟩ := (inputsOk_iff hs).1 hok
   unfold stepLoop
-  simp only [hs, Bool.false_eq_true, if_false, pollAll_eq i.willPing i.polls s.streams hmem hnd]
+  simp only [hs, Bool.false_eq_true, if_false, pollAll_eq h i.willPing i.polls s.streams hmem hnd]
   rfl
 
 /-- The effects of a run from the table `st` (no panic, see `runLoop_eq`). -/
-def runEffects : List Addr → List IterInput → List Effect
+def runEffects (h : Handlers) : List Addr → List IterInput → List Effect
   | _, [] => []
-  | st, i :: is => if i.shutdown then [.exit] else iterEffects st i ++ runEffects (nextStreams st i) is
+  | st, i :: is => if i.shutdown then [.exit] else iterEffects h st i ++ runEffects h (nextStreams st i) is
 
 /-- `RunOk` in terms of the table alone. -/
 def RunOk' : List Addr → List IterInput → Prop
@@ -174,8 +175,8 @@ def RunOk' : List Addr → List IterInput → Prop
 
 theorem inputsOk_phase (s : AppState) (i : IterInput) : InputsOk s i = InputsOk { streams := s.streams } i := rfl
 
-theorem runOk_iff : ∀ (is : List IterInput) (s : AppState), s.phase = .running →
-    (RunOk s is = true ↔ RunOk' s.streams is) := by
+theorem runOk_iff (h : Handlers) : ∀ (is : List IterInput) (s : AppState), s.phase = .running →
+    (RunOk h s is = true ↔ RunOk' s.streams is) := by
   intro is
   induction is with
   | nil => intro s _; simp [RunOk, RunOk']
@@ -195,12 +196,12 @@ theorem runOk_iff : ∀ (is : List IterInput) (s : AppState), s.phase = .running
     · simp [InputsOk, hs, stepLoop]
       cases is <;> simp [RunOk]
 
-theorem runLoop_stopped (s : AppState) (is : List IterInput) (h : s.phase ≠ .running) :
-    runLoop s is = (s, []) := by
-  cases is <;> simp [runLoop, h]
+theorem runLoop_stopped (h : Handlers) (s : AppState) (is : List IterInput) (hne : s.phase ≠ .running) :
+    runLoop h s is = (s, []) := by
+  cases is <;> simp [runLoop, hne]
 
-theorem runLoop_eq : ∀ (is : List IterInput) (s : AppState), s.phase = .running → RunOk' s.streams is →
-    (runLoop s is).2 = runEffects s.streams is := by
+theorem runLoop_eq (h : Handlers) : ∀ (is : List IterInput) (s : AppState), s.phase = .running →
+    RunOk' s.streams is → (runLoop h s is).2 = runEffects h s.streams is := by
   intro is
   induction is with
   | nil => intro s _ _; simp [runLoop, runEffects]
@@ -214,7 +215,7 @@ theorem runLoop_eq : ∀ (is : List IterInput) (s : AppState), s.phase = .runnin
       simp only [Bool.false_eq_true, if_false]
       rw [ih _ rfl hok.2]
     · simp only [stepLoop, hs, if_true]
-      rw [runLoop_stopped _ _ (by simp)]
+      rw [runLoop_stopped _ _ _ (by simp)]
       simp
 
 end Humphrey.WsApp
